@@ -517,6 +517,17 @@ class Executor:
         if isinstance(base, ExcVal):
             if attr == "args":
                 return tuple(base.args)
+            if attr == "code" and isinstance(base.etype, type) and issubclass(base.etype, SystemExit):
+                # exit status: the raiser's argument when known; an unknown integer for an exit inside a callee under
+                # contract (a bare sys.exit() - status None - takes the same branches as status 0 in `code in (None, 0)`
+                # style tests; code that distinguishes None from 0 is outside this model and stated in the contract)
+                if base.args and not (isinstance(base.args[0], str) and base.args[0] == "<raised by callee>"):
+                    return base.args[0]
+                if not base.args:
+                    return None
+                if len(base.args) < 2:
+                    base.args = (base.args[0], z3.Int(fresh_name("exit_status")))
+                return base.args[1]
             self.unsupported(node, f"attribute {attr} of exception value")
         if isinstance(base, (FuncVal, BoundMethod)):
             self.unsupported(node, f"attribute {attr} of function value")
@@ -751,6 +762,13 @@ class Executor:
             a = self.ev(node.body, st)
         with st.guard(z3.Not(c)):
             b = self.ev(node.orelse, st)
+        # `0.0 if math.isnan(x) else x`: on the branch where the NaN flag of a library result is decided false the
+        # value is the plain number
+        N = self.intr.NanOr
+        if isinstance(b, N) and is_sym(b.isnan) and c.eq(as_bool_term(b.isnan)):
+            b = b.value
+        if isinstance(a, N) and is_sym(a.isnan) and c.eq(z3.Not(as_bool_term(a.isnan))):
+            a = a.value
         try:
             return ite(c, a, b)
         except Unmergeable as e:
@@ -1270,6 +1288,18 @@ class Executor:
                     return self.inline_call(f2, a2, kwargs, st, node, module=module, label=key)
                 self.ctx.stats["calls_by_contract"] += 1
                 return contract.apply_at_call(self, st, a2, kwargs, node)
+            cur = getattr(self.ctx, "current_contract", None)
+            if contract is None and cur is not None and "." not in key.split("::")[1] \
+                    and key.split("::")[0] == str(getattr(cur, "key", "")).split("::")[0]:
+                # a module-level helper in the same file as the function under contract and without a contract of its
+                # own (typically extracted from that function): verified as part of its caller by inlining
+                fnode, module = self.load_function(pyf)
+                f2 = FuncVal(pyfunc=None, node=fnode, module=module, qualname=key)
+                self.ctx.stats["calls_inlined"] += 1
+                note = f"same-file helper without contract inlined: {key}"
+                if note not in self.ctx.notes:
+                    self.ctx.notes.append(note)
+                return self.inline_call(f2, a2, kwargs, st, node, module=module, label=key)
             self.unsupported(node, f"call to repository function without contract or inline mark: {key}")
         if isinstance(pyf, type) and is_repo_callable(pyf):
             mod = sys.modules.get(pyf.__module__)
